@@ -175,8 +175,12 @@ def gen_deck(rng):
                 card += option_tokens('rho', [T(rng.choice(DENSITIES), 'dens')])
             elif transforms:
                 card += option_tokens('trcl', [T(rng.choice(sorted(transforms)))])
-            else:
+            elif rng.random() < 0.5:
                 card += option_tokens('u', [T(7)])
+            else:
+                tr = shared.random_tr(rng, translate_only=False)
+                card += option_tokens('trcl', paren_list(
+                    [shared.num(v) for v in tr['print']]), star=tr['star'])
         else:
             if rng.random() < 0.3:
                 card.append(T(0))
@@ -201,7 +205,7 @@ def gen_deck(rng):
                 elif roll < 0.5 and transforms:
                     fill = relink(fill, 'del') + paren_list(
                         [rng.choice(sorted(transforms))], 'int')
-                elif roll < 0.65:
+                elif roll < 0.8:
                     tr = shared.random_tr(rng, translate_only=False)
                     star = tr['star']
                     fill = relink(fill, 'del') + paren_list(
@@ -209,6 +213,11 @@ def gen_deck(rng):
                 card += option_tokens('fill', fill, star=star)
             elif transforms and rng.random() < 0.15:
                 card += option_tokens('trcl', [T(rng.choice(sorted(transforms)))])
+            elif rng.random() < 0.12:
+                # inline TRCL / *TRCL with a rotation
+                tr = shared.random_tr(rng, translate_only=False)
+                card += option_tokens('trcl', paren_list(
+                    [shared.num(v) for v in tr['print']]), star=tr['star'])
         if imp_on_cells:
             val = rng.choice([1, 1, 1, 2, 0.5]) if k else 1
             card += [T('imp:n', 'word', 'opt'), T('=', 'punct', 'opt'),
@@ -310,6 +319,53 @@ def add_lattice(rng, cells, surfaces, imp_on_cells, mats):
 
 def lattice_args(deck):
     return []
+
+
+def features(deck):
+    '''Content categories of an abstract deck (for the evidence histogram).'''
+    out = set()
+    for card in deck['cells']:
+        words = [t.lower() for t, kind, _ in card if kind == 'word']
+        texts = [t for t, _, _ in card]
+        if 'like' in words:
+            out.add('like-but')
+            for w in ('trcl', 'mat', 'rho', 'u'):
+                if w in words:
+                    out.add('like-but:' + w)
+        for w in ('fill', '*fill', 'trcl', '*trcl', 'u', 'lat', 'imp:p'):
+            if w in words:
+                out.add('cell-option:' + w)
+        if '#' in texts:
+            out.add('complement')
+        if ':' in texts:
+            out.add('union')
+        if any(kind == 'fillvals' for _, kind, _ in card):
+            out.add('fill-array')
+        fills = [k for k, (t, kd, _) in enumerate(card)
+                 if kd == 'word' and t.lower() in ('fill', '*fill')]
+        if fills and '(' in texts[fills[0]:]:
+            out.add('fill-with-transformation')
+    for card in deck['surfaces']:
+        name = card[0][0]
+        if name[0] in '*+':
+            out.add('surface-mark:' + name[0])
+        if card[1][1] == 'int':
+            out.add('surface-with-tr')
+        out.add('surface:' + [t for t, kind, _ in card if kind == 'word'][0].lower())
+    for card in deck['data']:
+        head = card[0][0].lower()
+        key = head.rstrip('0123456789')
+        out.add('data:' + key)
+        if any(isinstance(t, tuple) for t, _, _ in card):
+            out.add('imp-data-card')
+            continue
+        if any(t.lower().startswith('nlib') for t, _, _ in card):
+            out.add('m-card-keyword')
+        if any('.' in t and t.split('.')[0].isdigit() and t[-1] in 'cC' for t, kd, _ in card if kd == 'word'):
+            out.add('zaid-suffix')
+    if deck.get('lattice'):
+        out.add('lattice')
+    return sorted(out)
 
 
 # ---------------------------------------------------------------------------
